@@ -13,7 +13,10 @@
 EXTENDS Naturals, Sequences, FiniteSets, TLC
 
 CONSTANTS Sessions, Builders, Fields, Vals, HNames, HVals, MaxCells, MaxSteps,
-          CopyOnWrite   \* FALSE: design alternative that mutates a shared cell in place
+          CopyOnWrite,  \* FALSE: design alternative that mutates a shared cell in place
+          AllowBack,    \* setters are also called with the default value (0)
+          SkipDefault   \* TRUE: design alternative in which a setter called with the default value leaves the cell alone
+                        \* ("no private copy when there is nothing to record")
 
 Prepared(b) == "P" \o b
 Objs == Sessions \cup Builders \cup {Prepared(b) : b \in Builders}
@@ -59,8 +62,10 @@ NewSession == \E s \in Sessions : /\ ~Live(s) /\ FreeCells # {}
      /\ UNCHANGED ownH /\ lastOp' = <<"news", s>>
 Clone == \E s \in Sessions, t \in Sessions : /\ Live(s) /\ ~Live(t)
      /\ cellOf' = [cellOf EXCEPT ![t] = cellOf[s]] /\ UNCHANGED <<cells, ownH>> /\ lastOp' = <<"clone", s, t>>       \* Arc::clone
-SetField == \E o \in Sessions \cup Builders, fld \in Fields, v \in Vals \ {0} : /\ Live(o)
-     /\ MakeMut(o, LAMBDA cell : [cell EXCEPT !.f[fld] = v]) /\ UNCHANGED ownH /\ lastOp' = <<"set", o, fld, v>>
+SetField == \E o \in Sessions \cup Builders, fld \in Fields, v \in (IF AllowBack THEN Vals ELSE Vals \ {0}) : /\ Live(o)
+     /\ (IF SkipDefault /\ v = 0 THEN UNCHANGED <<cellOf, cells>>
+         ELSE MakeMut(o, LAMBDA cell : [cell EXCEPT !.f[fld] = v]))
+     /\ UNCHANGED ownH /\ lastOp' = <<"set", o, fld, v>>
 SessionHeader == \E s \in Sessions, n \in HNames, v \in HVals, ap \in BOOLEAN : /\ Live(s)
      /\ MakeMut(s, LAMBDA cell : [cell EXCEPT !.h = IF ap THEN HAppend(@, n, v) ELSE HSet(@, n, v)])
      /\ UNCHANGED ownH /\ lastOp' = <<"hdr", s, n, v, ap>>
